@@ -100,7 +100,8 @@ tail = [l for l in out.split("\n") if "panicked" in l or "assertion" in l or "le
 res["demo_failure_excerpt"] = tail
 unplace()
 if placed[0] == "append":
-    sh("git apply %s" % os.path.join(d, "patch.diff"))    # checkout of the appended file may have reverted a hunk
+    sh("git reset -q --hard")                             # checkout of the appended file may have reverted a hunk
+    sh("git apply %s" % os.path.join(d, "patch.diff"))
 existing = os.environ.get("EXISTING_CMD") or meta0.get("existing_cmd") or ("cargo test -p %s --offline" % crate)
 rc, out = sh("%s 2>&1 | grep -E '^test result|FAILED|error(\\[|:)' " % existing)
 res["existing_tests_cmd"] = existing
